@@ -53,9 +53,9 @@ def norm(s):
     return s
 
 
-def run_worker(ctx, binary, ops, outdir, total):
+def run_worker(ctx, binary, ops, outdir, total, hang_s=60, name="impl.txt"):
     """Run the worker, restarting after every death; returns list of per-input results."""
-    impl = os.path.join(outdir, "impl.txt")
+    impl = os.path.join(outdir, name)
     open(impl, "w").close()
     deaths = 0
 
@@ -66,7 +66,7 @@ def run_worker(ctx, binary, ops, outdir, total):
         done = sum(1 for _ in open(impl))
         if done >= total:
             break
-        env = ctx.run_env(outdir, {"VERIF_IN": ops, "VERIF_START": done, "GOMEMLIMIT": "3GiB"})
+        env = ctx.run_env(outdir, {"VERIF_IN": ops, "VERIF_START": done, "GOMEMLIMIT": "3GiB", "VERIF_IMPL_NAME": name})
         p = subprocess.Popen([binary, "-test.run", "^TestVerifC10Worker$", "-test.timeout", "30m"], env=env,
                              stdout=subprocess.PIPE, stderr=subprocess.STDOUT, preexec_fn=limit, cwd=outdir)
         last, last_t = done, time.time()
@@ -76,7 +76,7 @@ def run_worker(ctx, binary, ops, outdir, total):
             cur = sum(1 for _ in open(impl))
             if cur != last:
                 last, last_t = cur, time.time()
-            elif time.time() - last_t > 60:
+            elif time.time() - last_t > hang_s:
                 p.kill()
                 hung = True
         out = p.stdout.read().decode(errors="replace")
@@ -95,7 +95,7 @@ def run_worker(ctx, binary, ops, outdir, total):
             f.write(res + "\n")
         if deaths > 3000:
             raise RuntimeError("too many worker deaths")
-    ctx.stats["worker_deaths"] = deaths
+    ctx.stats["worker_deaths"] = ctx.stats.get("worker_deaths", 0) + deaths
     return [l.rstrip("\n") for l in open(impl)]
 
 
@@ -148,6 +148,42 @@ def run(ctx):
     ctx.coverage["gray_zone_inputs"] = gray
     if not ctx.samples and oplines:
         ctx.samples.append({"op": core.clip(oplines[0]), "impl": core.clip(impl[0]), "model": core.clip(model[0])})
+    # Directed search: the model and the decoder disagree on some input but the decoder did not misbehave on
+    # it.  Look for a concrete failing input near the disagreements: every large 8-byte field of a diverging
+    # input is replaced by values just below 2^61, 2^62, 2^63 and 2^64 (the values at which element counts,
+    # byte counts and seek offsets wrap or change sign).
+    if ctx.l1_disagreements and not failures and not ctx.replay:
+        seeds = sorted((d["op"] for d in ctx.l1_disagreements if d), key=len)[:4]
+        cand, seen = [], set()
+        for op in seeds:
+            toks = op.split()
+            raw = bytes.fromhex(toks[3]) if toks[3] != "-" else b""
+            for off in range(8, max(8, len(raw) - 7)):
+                v = int.from_bytes(raw[off:off + 8], "little")
+                if v == 0 or (1 << 16) <= v < (1 << 31):
+                    continue        # counts and lengths are small or (already altered) huge
+                for base in (1 << 61, 1 << 62, 1 << 63, 1 << 64):
+                    for k in range(0, 33):
+                        nv = (base - k) % (1 << 64)
+                        b0 = raw[:off] + nv.to_bytes(8, "little") + raw[off + 8:]
+                        # also with a huge key/value count in the header (a decoder that is thrown back by a
+                        # wrapped offset only spins if it still has entries to read)
+                        variants = [b0]
+                        if off >= 24 and len(b0) >= 24:
+                            variants.append(b0[:16] + (1 << 63).to_bytes(8, "little") + b0[24:])
+                        for b in variants:
+                            if b not in seen and len(cand) < 48000:
+                                seen.add(b)
+                                cand.append(f"gguf-safe {toks[1]} {1048576 + 64 * len(b)} {b.hex()}")
+        if cand:
+            dops = os.path.join(outdir, "directed_ops.txt")
+            with open(dops, "w") as f:
+                f.write("\n".join(cand) + "\n")
+            dimpl = run_worker(ctx, binary, dops, outdir, len(cand), hang_s=4, name="directed_impl.txt")
+            ctx.coverage["directed_search_inputs"] = len(cand)
+            for op, a in zip(cand, dimpl):
+                if a.startswith("panic:") or a in ("alloc", "hang") or a.startswith("death"):
+                    failures.append({"kind": a.split(":other")[0], "case": op, "detail": f"directed search near an L1 disagreement: outcome={a}"})
     # API level: crafted corpus + seeded mutants through upload/create/show in child processes
     if not ctx.replay:
         rc, out, apidir = ctx.go_test("./server/", API_OVERLAY, "^TestVerifC10API$",
